@@ -40,6 +40,9 @@ CHECKS["C03"] = dict(cat="proof", tech=TECH,
 CHECKS["C06"] = dict(cat="proof", tech=TECH + "; plus exhaustive static read/write-set obligations over the class ASTs",
    text="Representation invariant of lazily evaluated objects (a cached value exists only while the defining attributes are structurally unchanged) proved to be established by the constructor and preserved by every public mutating operation of FunctionSignal for symbolic states, read-set of the lazy value, the generic LazyMutableClass/lazy_property contract, index facts of the buffer-extended grid, and static obligations that no ray tracer/path class keeps derived state outside the cache mechanism.",
    note=PROOF_NOTE + " Component count of the symbolic FunctionSignal state is bounded (B).", ref="§5 C06")
+CHECKS["C04"] = dict(cat="proof", tech=TECH,
+   text="Contracts on Signal, EmptySignal and FunctionSignal: construction keeps one value per sample for every pair of array lengths, every operator/copy/re-gridding result is free of aliasing with its operands (heap identities), addition is pointwise with the stated refusals and neutral elements for all type pairs, scaling is element-wise, re-gridding calls np.interp with zero fill / re-evaluates the function; symbolic array lengths and contents.",
+   note=PROOF_NOTE + " The interpolation law itself is numpy's assumed contract (A5).", ref="§5 C04")
 NOT_YET = {}
 def main():
     props = [json.loads(l) for l in open(os.path.join(HERE, "properties.jsonl"))]
